@@ -508,6 +508,7 @@ class QasmProcessor:
             # which the gates are applied.
             new_regs = []
             expand = 0
+            sizes = set()
             for reg in regs:
                 if "[" in reg:
                     groups = re.match(r"(.*)\[(.*)\]", "".join(reg))
@@ -522,6 +523,12 @@ class QasmProcessor:
                     qubit_name = reg
                     qubit = self.qubit_regs[qubit_name]
                     expand = len(qubit)
+                    sizes.add(expand)
+                    if reg_type == "gate" and len(sizes) > 1:
+                        raise ValueError(
+                            "QASM: registers of different sizes "
+                            "cannot be broadcast"
+                        )
                 new_regs.append(qubit)
             if expand:
                 return zip(
